@@ -202,7 +202,9 @@ def finish(report, ws, meta, t0, seed):
 
     os.makedirs(os.path.join(VERIF, 'evidence'), exist_ok=True)
     replay_path = None
-    if new:
+    if new and os.environ.get('MVS_NO_EVIDENCE'):
+        replay_path = '(selftest)'
+    elif new:
         os.makedirs(os.path.join(VERIF, 'evidence', 'replay'), exist_ok=True)
         replay_path = os.path.join(VERIF, 'evidence', 'replay', '%s.json' % prop)
         with open(replay_path, 'w') as f:
@@ -247,8 +249,9 @@ def finish(report, ws, meta, t0, seed):
         'wall_s': round(time.time() - t0, 2),
         'violations': len(new),
     }
-    with open(os.path.join(VERIF, 'evidence', '%s.json' % prop), 'w') as f:
-        json.dump(ev, f, indent=1)
+    if not os.environ.get('MVS_NO_EVIDENCE'):
+        with open(os.path.join(VERIF, 'evidence', '%s.json' % prop), 'w') as f:
+            json.dump(ev, f, indent=1)
 
     print('[%s %s] tree=%s units=%d fns=%d obligations=%d holds=%d known=%d new-violations=%d wall=%.1fs' % (
         prop, report.tier, meta.get('tree'), len(ws.units) if ws else 0, len(ws.fns) if ws else 0,
